@@ -1,6 +1,16 @@
 import PPLV.PolyFull.ProofsOps1
 import PPLV.PolyFull.ProofsOps10
 import PPLV.PolyFull.ProofsOps10b
+import PPLV.PolyFull.ProofsOps11
+import PPLV.PolyFull.ProofsOps11a
+import PPLV.PolyFull.ProofsOps11b
+import PPLV.PolyFull.ProofsOps11c
+import PPLV.PolyFull.ProofsOps11d
+import PPLV.PolyFull.ProofsOps11e
+import PPLV.PolyFull.ProofsOps11f
+import PPLV.PolyFull.ProofsOps11g
+import PPLV.PolyFull.ProofsOps11i
+import PPLV.PolyFull.ProofsOps11j
 import PPLV.PolyFull.ProofsOps2
 import PPLV.PolyFull.ProofsOps3
 import PPLV.PolyFull.ProofsOps4
